@@ -207,6 +207,20 @@ struct ReadNExec {
     arena: ByteArena,
 }
 
+impl ReadNExec {
+    fn fresh() -> ReadNExec {
+        ReadNExec { arena: ByteArena::new() }
+    }
+}
+
+/// `read_n` / `ensure_capacity` / `flush_cache` never panic (scripted readers only return errors),
+/// so every op may run while the thread is unwinding (track traits, `unwind.rs`).
+impl crate::unwind::Probe for ReadNExec {
+    fn unwind_safe(&self, _w: &[&str]) -> bool {
+        true
+    }
+}
+
 impl Exec for ReadNExec {
     fn step(&mut self, w: &[&str]) -> StepOut {
         match w {
@@ -299,7 +313,7 @@ impl Family for ReadNFamily {
     }
 
     fn new_exec(&self) -> Box<dyn Exec> {
-        Box::new(ReadNExec { arena: ByteArena::new() })
+        crate::unwind::UnwindExec::boxed(ReadNExec::fresh)
     }
 
     /// All scripts over {d1, d2, d9, x0, e, x1} up to length 4 (5 thorough)
@@ -374,6 +388,15 @@ impl Family for ReadNFamily {
                     ));
                 }
             }
+        }
+        // track traits: calls made while the thread is unwinding; a history owned by a scope that panics
+        if rng.chance(1, 4) {
+            ops = crate::unwind::sprinkle(rng, ops, 1, 2, |_| true);
+        }
+        if rng.chance(1, 12) {
+            let keep = ops.len().min(4);
+            let inner: Vec<String> = ops[..keep].iter().map(|o| o.trim_start_matches("unwinding ").to_string()).collect();
+            ops.push(format!("scoped_panic {}", inner.join(" ; ")));
         }
         ops
     }
